@@ -24,38 +24,98 @@ POLICY2 = ("policy_exp", "policy_rand")            # two-argument constructors: 
 EXP_FAMILY = ("exp", "retry_policy", "policy_exp_of", "policy_custom")       # an ExponentialBackoff built by a chain
 RAND_FAMILY = ("rand", "retry_policy_rand", "policy_rand_of")                # an ExponentialRandomBackoff built by a chain
 BELOW2 = [(1, 1), (11, 10), (5, 4), (3, 2)]
+# multipliers just above 1: growth by 0.01 % .. 5 % per attempt, where the cap is reached only after a thousand and more
+# attempts; non-dyadic ones (the f64 multiplier is off by up to 2^-53, an error the exponent multiplies) and exactly
+# representable ones (1 + 2^-k)
+NEAR1 = [(1001, 1000), (2001, 2000), (501, 500), (401, 400), (251, 250), (1007, 1000), (101, 100), (1013, 1000), (81, 80), (51, 50),
+         (103, 100), (26, 25), (21, 20), (4001, 4000), (1025, 1024), (513, 512), (257, 256), (129, 128), (65, 64), (33, 32)]
+
+
+def tol_of(x, e):
+    """relative (2e + 8)·2^-53 — at least the 2^-40 the envelope always had — plus one nanosecond: the f64 multiplier is off by up to
+    2^-53 (e times in the power), square-and-multiply rounds at most e - 1 times in first-order units, three more roundings around
+    it; e = the number of factors that decide the answer (the attempt, or the first exponent at which the cap is reached)"""
+    return x * max(8192, 2 * e + 8) // 2 ** 53 + 1
 
 
 # ----------------------------------------------------------------------------- exact oracle (python ints)
 
 class Ideal:
-    """min(floor(initial * (num/den)^min(a, i32::MAX)), cap) with a table up to the first capped exponent"""
-    def __init__(self, initial, num, den, cap):
+    """min(floor(initial * (num/den)^min(a, i32::MAX)), cap), exact integers. `cross` = the first exponent at which the cap is reached
+    (floor(initial·m^e) is non-decreasing in e: found by doubling + bisection, each value one big power — multipliers just above 1
+    reach a far-away cap only after 10^4..10^6 factors, a step-by-step table would be quadratic)"""
+    _memo = {}
+
+    def __new__(cls, initial, num, den, cap, limit=None):
+        key = (initial, num, den, cap, limit)
+        obj = cls._memo.get(key)
+        if obj is None:
+            if len(cls._memo) > 4000:
+                cls._memo.clear()
+            obj = cls._memo[key] = object.__new__(cls)
+            obj._init(initial, num, den, cap, limit)
+        return obj
+
+    def _init(self, initial, num, den, cap, limit):
+        self.initial, self.num, self.den = initial, num, den
         self.cap = DUR_MAX if cap is None else cap
         self.const = None
         self.rawcross = None
+        self.vals = {}
         if initial == 0 or num == den:
             self.const = min(initial, self.cap)
             self.cross = 0 if initial >= self.cap else None
             return
-        self.table = []
-        n, d = initial, 1
-        while True:
-            v = n // d
-            if v >= self.cap:
-                self.table.append(self.cap)
-                self.rawcross = v
+        hi = 1
+        while self.raw(hi) < self.cap:
+            hi *= 2
+            if limit is not None and hi > 2 * limit:
                 break
-            self.table.append(v)
-            n *= num
-            d *= den
-        self.cross = len(self.table) - 1      # first exponent at which the cap is reached
+        if self.raw(0) >= self.cap:
+            hi = 0
+        lo = hi // 2                     # raw(lo) < cap (or hi == 0), raw(hi) >= cap (unless the limit was hit)
+        if limit is not None and self.raw(min(hi, limit)) < self.cap:
+            self.cross = None            # not reached within `limit` attempts
+            return
+        while hi - lo > 1:
+            mid = (lo + hi) // 2
+            if self.raw(mid) >= self.cap:
+                hi = mid
+            else:
+                lo = mid
+        self.cross = hi                  # first exponent at which the cap is reached
+        self.rawcross = self.raw(hi)
+        self.vals = {k: v for k, v in self.vals.items() if k < hi}
+
+    def raw(self, e):
+        v = self.vals.get(e)
+        if v is None:
+            v = self.vals[e] = self.initial * self.num ** e // self.den ** e
+        return v
+
+    @property
+    def table(self):
+        """table[e] for e <= cross (only `table[cross - 1]` / `table[cross]` are used by the coverage tags)"""
+        outer = self
+
+        class T:
+            def __getitem__(_, e):
+                return outer.cap if e >= outer.cross else outer.raw(e)
+        return T()
 
     def at(self, a):
         if self.const is not None:
             return self.const
         e = min(a, I32_MAX)
-        return self.table[min(e, len(self.table) - 1)]
+        if self.cross is not None and e >= self.cross:
+            return self.cap
+        return min(self.raw(e), self.cap)
+
+    def eff(self, a):
+        """the number of factors that decide the answer"""
+        if self.const is not None:
+            return 0
+        return min(a, I32_MAX) if self.cross is None else min(a, I32_MAX, self.cross)
 
 
 def parse_chain(s):
@@ -227,15 +287,73 @@ def _saturation_points(initial, items, num, den, cap, limit=20000):
     pts = []
     for mm in dict.fromkeys(mults[-3:] + [(num, den)]):
         for cc in dict.fromkeys(caps[-3:] + [cap]):
-            x = Ideal(initial, mm[0], mm[1], cc).cross
+            x = Ideal(initial, mm[0], mm[1], cc, limit=limit).cross
             if x is not None and x <= limit:
                 pts.append(x)
     return sorted(set(pts))
 
 
+def _near_one_case(rng, tier):
+    """a multiplier just above 1, a maximum that is reached only after more than a thousand attempts (or never below 10^4), and
+    attempts in the thousands: dense around 1024 (2^10, f64::MAX_EXP), around the attempt at which the exact value reaches the
+    maximum, samples in between and far beyond"""
+    kind = rng.choice(["exp"] * 5 + ["rand", "retry_policy", "policy_exp_of", "policy_rand_of", "retry_policy_rand", "policy_custom"])
+    num, den = rng.choice(NEAR1)
+    kmax = 2600 if tier == "quick" else 6000
+    # the attempt at which the maximum is to be reached
+    r = rng.random()
+    k = rng.randint(1025, 1100) if r < 0.35 else rng.randint(1025, kmax) if r < 0.9 else rng.randint(300, 1024)
+    top = DUR_MAX * den ** k // num ** k          # the largest initial interval that is still below Duration::MAX at exponent k
+    cands = [i for i in (1, 1000, 10 ** 6, 10 ** 8, 10 ** 8, SEC, 123456789, int(10 ** rng.uniform(0, 10))) if i * 4 <= top]
+    if not cands:
+        k = rng.randint(300, 900)
+        cands = [1]
+    initial = rng.choice(cands)
+    exact_k = _raw(initial, num, den, k)
+    r = rng.random()
+    if r < 0.35:
+        cap = exact_k + rng.choice([-1, 0, 0, 1, rng.randint(0, max(1, exact_k // 1000))])
+    elif r < 0.7:
+        cap = rng.choice([c for c in (3600 * SEC, 86400 * SEC, 365 * 86400 * SEC, 10 * 365 * 86400 * SEC, 5 * SEC, 60 * SEC) if c > initial] or [exact_k])
+    elif r < 0.85:
+        cap = DUR_MAX
+    else:
+        cap = None
+    idl = Ideal(initial, num, den, cap, limit=kmax + 500)
+    if idl.cross is None:
+        cap = exact_k
+        idl = Ideal(initial, num, den, cap)
+    cap = None if cap is None else max(1, min(cap, DUR_MAX))
+    words = ["backoff", "kind=" + kind, "initial_ns=%d" % initial]
+    if rng.random() < 0.6:
+        items = [("m", (num, den))] + ([] if cap is None else [("c", cap)])
+        if rng.random() < 0.5:
+            items.reverse()
+        if rng.random() < 0.3:
+            items.insert(0, ("m", rng.choice(GRID + NEAR1)))
+        words.append(chain_word(items))
+    else:
+        words += ["mult_num=%d" % num, "mult_den=%d" % den, "cap_ns=" + ("none" if cap is None else str(cap))]
+    if kind in JITTER_KINDS:
+        words += ["rf_pct=%d" % rng.choice([0, 0, 0, 10, 50, 100])]
+    x = idl.cross
+    n = 1 if tier == "quick" else 3
+    attempts = list(range(1024 - 3 * n, 1024 + 6 * n)) + list(range(max(0, x - 3 * n), x + 3 * n + 1))
+    attempts += [rng.randint(0, x + 200) for _ in range(12 * n)] + [rng.randint(1000, 1100) for _ in range(4 * n)]
+    s0 = rng.randint(0, x + 50)
+    attempts += list(range(s0, s0 + 6 * n))
+    attempts += [rng.randint(x, 10000 + x) for _ in range(3 * n)] + [2047, 2048, 4096, 10000, 65536, I32_MAX, I32_MAX + 1, 2 ** 32, USIZE_MAX]
+    attempts += [min(USIZE_MAX, 2 ** rng.randint(11, 64) + rng.choice([-1, 0, 1])) for _ in range(3)]
+    if rng.random() < 0.5:
+        rng.shuffle(attempts)
+    return {"header": " ".join(words), "ops": ["probe backoff attempt=%d" % a for a in attempts]}
+
+
 def gen(rng, tier):
     if rng.random() < (1 / 150.0):
         return _outage_case(rng, tier)
+    if rng.random() < 0.07:
+        return _near_one_case(rng, tier)
     kind = rng.choice(["exp"] * 6 + ["rand"] * 2 + ["retry_policy", "policy_exp", "policy_exp", "policy_rand", "policy_fixed", "fixed", "policy_none",
                                                     "retry_policy", "policy_exp_of", "policy_exp_of", "policy_rand_of", "retry_policy_rand", "policy_custom"])
     chainable = kind in EXP_FAMILY + RAND_FAMILY
@@ -412,7 +530,7 @@ def mon_monotone(case, lines, meta):
 
 
 def mon_exact(case, lines, meta):
-    """equal to initial x multiplier^attempt (2^-40 relative + 1 ns) until that reaches the cap, the cap afterwards;
+    """equal to initial x multiplier^attempt (relative max(2^-40, (2e+8)·2^-53) + 1 ns, see `tol_of`) until that reaches the cap, the cap afterwards;
     jittered values within the randomization factor of that value"""
     if _is_outage(case):
         return None
@@ -432,7 +550,7 @@ def mon_exact(case, lines, meta):
         if key not in cache:
             cache[key] = Ideal(initial, num, den, cap)
         x = cache[key].at(a)
-        tol = x // 2 ** 40 + 1
+        tol = tol_of(x, cache[key].eff(a))
         if kind in JITTER_KINDS:
             fn, fd = rf
             if fd == 0:
@@ -525,6 +643,12 @@ def transitions(case, lines, meta=None):
             tags.append("multiplier-one")
         elif num < 2 * den:
             tags.append("multiplier-below-2")
+        if den < num and num * 100 <= den * 106:
+            tags.append("multiplier-within-6%-of-one")
+            if a > 1024 and idl.cross is not None and idl.cross > 1024:
+                tags.append("below-cap-beyond-attempt-1024" if idl.at(a) < c else "at-cap-first-reached-beyond-attempt-1024")
+            if idl.eff(a) > 4092:
+                tags.append("tolerance-grows-with-exponent")
         if cap is not None and idl.cross and (idl.rawcross - cap <= 1 or cap - idl.table[idl.cross - 1] <= 1):
             tags.append("cap-within-1ns-of-uncapped-value")
         kv = dict(hkv)
@@ -574,7 +698,9 @@ def _chain_tags(items, initial):
     for mm in dict.fromkeys(mults[-3:]):
         for cc in dict.fromkeys(caps[-3:]):
             if (mm[0] * den, cc) != (num * mm[1], cap):
-                stale.append(Ideal(initial, mm[0], mm[1], cc))
+                st = Ideal(initial, mm[0], mm[1], cc, limit=200000)
+                if st.const is not None or st.cross is not None:
+                    stale.append(st)
     return tags, stale
 
 
@@ -591,8 +717,8 @@ LEVEL_NOTE = ("Partial. Proved (Lean kernel): monotonicity, cap, exactness below
               "jitter range is well-formed, randomize total and within its bounds, every built-in interval function / policy / loop total "
               "under JitterLaws; all laws hold of a concrete arithmetic with overflow, +inf and NaN (consistency). "
               "Sampled, not proved: that binary64 / Duration satisfy FloatLike, F64Laws (in particular monotonicity of powi in the exponent, "
-              "which IEEE does not promise) and JitterLaws, and that outside the exact region the float result stays within 2^-40 relative + "
-              "1 ns of `ideal` — the correspondence check feeds every observed value to the model, which demands `ideal` exactly inside the "
+              "which IEEE does not promise) and JitterLaws, and that outside the exact region the float result stays within max(2^-40, (2e+8)·2^-53) relative + "
+              "1 ns of `ideal` (e = the effective exponent: attempt, or first capped attempt) — the correspondence check feeds every observed value to the model, which demands `ideal` exactly inside the "
               "exact region and rejects a value outside the envelope, above the cap or out of order with an earlier accepted value elsewhere; "
               "independent python monitors check no-panic / cap / monotone / exactness directly on the implementation's values. "
               "Trusted: harness (catch_unwind around the call), python oracle.")
@@ -615,7 +741,8 @@ SPECS = {
                             "chain-overridden-multiplier", "chain-overridden-max_interval", "chain-multiplier-before-max_interval",
                             "chain-max_interval-before-multiplier", "chain-max_interval-before-smaller-multiplier",
                             "chain-max_interval-before-larger-multiplier", "below-cap-where-a-stale-setting-is-saturated",
-                            "at-cap-where-a-stale-setting-is-not", "multiplier-below-2", "cap-within-1ns-of-uncapped-value", "product-exactly-2^64s", "below-cap", "at-cap", "first-capped-attempt", "saturated-duration-max",
+                            "at-cap-where-a-stale-setting-is-not", "multiplier-below-2", "multiplier-within-6%-of-one", "below-cap-beyond-attempt-1024",
+                            "at-cap-first-reached-beyond-attempt-1024", "cap-within-1ns-of-uncapped-value", "product-exactly-2^64s", "below-cap", "at-cap", "first-capped-attempt", "saturated-duration-max",
                             "zero-initial", "huge-initial", "huge-initial-jittered", "cap-at-or-below-initial", "attempt>i32max", "attempt=usize-max", "multiplier-one",
                             "exact-region", "exact-region-below-cap", "outside-exact-region", "factor-not-a-whole-percent", "factor-above-1-clamped",
                             "factor-zero", "policy-zero-initial", "policy-sub-ms-initial", "policy-sub-ms-maximum",
@@ -630,7 +757,8 @@ SPECS = {
                 "multiplier / max_interval, default multiplier left out, 1..3 overridden or repeated setters anywhere — with multipliers below 2 "
                 "favoured, caps within 1 ns of an uncapped value, and attempts around the first capped attempt of the intended and of every stale "
                 "combination of settings seen along the chain; 10 % asked through a clone; initial 0, "
-                "1 ns .. 7 days, log-uniform; multiplier on the grid {1,1.1,1.25,1.5,2,2.5,3,3.5,5,7.5,10}; 5 % power-of-two seconds x 2/4/8 without a maximum, so that the product "
+                "1 ns .. 7 days, log-uniform; multiplier on the grid {1,1.1,1.25,1.5,2,2.5,3,3.5,5,7.5,10}; 7 % with a multiplier just above 1 (1.00025 .. 1.05, non-dyadic and 1+2^-k), a maximum first reached "
+                "at an attempt between 1025 and 2600 (thorough 6000), attempts dense around 1024 and around that attempt, samples in between and up to usize::MAX; 5 % power-of-two seconds x 2/4/8 without a maximum, so that the product "
                 "hits 2^64 s exactly; 10 % inside the exact region of the float computation (initial interval and maximum exactly representable "
                 "seconds, multiplier 1/2/4/8) or one nanosecond outside it; cap absent / below / equal / above the "
                 "initial interval / years / Duration::MAX; factor 0..100 % or (40 %) any rational n/d incl. above 1 and n/0, which the constructor clamps) probed at dense windows of consecutive attempts inside 0..10^4 (around 0, "
